@@ -761,11 +761,22 @@ func checkC12(c *Ctx) *core.Result {
 
 // isInputByte: v is input[...] (string index of the state's input field).
 func isInputByte(a *Anchors, v ssa.Value) bool {
+	// the input itself or a slice of it (`rest := s.input[s.pos:]; rest[1]`)
+	isInput := func(x ssa.Value) bool {
+		for d := 0; d < 4; d++ {
+			sl, ok := x.(*ssa.Slice)
+			if !ok {
+				break
+			}
+			x = sl.X
+		}
+		return a.loadsField(x, "sql.state.input")
+	}
 	switch x := v.(type) {
 	case *ssa.Index:
-		return a.loadsField(x.X, "sql.state.input")
+		return isInput(x.X)
 	case *ssa.Lookup:
-		return a.loadsField(x.X, "sql.state.input")
+		return isInput(x.X)
 	case *ssa.Call:
 		// an accessor such as s.peekAt(k)
 		if f := x.Common().StaticCallee(); f != nil {
